@@ -419,7 +419,17 @@ func runC13(c *Ctx) {
 }
 
 func init() {
-	runners["C03"] = runC03
+	// the regenerated CT-IR of the sm2.go entry points (Props/C13IR.lean: run of the IR = the model on ctxFiat) against the
+	// real functions: the functional validation of the IR semantics the refinement theorems rest on
+	withIR := func(f func(*Ctx)) func(*Ctx) {
+		return func(c *Ctx) {
+			f(c)
+			rule := c.res.Rule
+			runC13IR(c)
+			c.res.Rule = rule + " || CT-IR: " + c.res.Rule
+		}
+	}
+	runners["C03"] = withIR(runC03)
 	runners["C01"] = runC01
-	runners["C13"] = runC13
+	runners["C13"] = withIR(runC13)
 }
